@@ -12,8 +12,12 @@ RULE = ("random histories of the real app mixing genuine votes (full / minimal /
 
 def run(tier, seed, work):
     quick = tier == "quick"
-    mc = [("MC_Relayer.tla", "MC_Relayer_quick.cfg" if quick else "MC_Relayer_thorough.cfg")]
+    import os
+    # MC_Voted also writes the case table (cases.ndjson) that the second group replays: every corruption of the signed context
+    # (sequence, epoch, proposer, action, chain) and of the payload (every field, and the ORDER of its items) must be refused
+    mc = [("MC_Relayer.tla", "MC_Relayer_quick.cfg" if quick else "MC_Relayer_thorough.cfg"), ("MC_Voted.tla", "MC_Voted_quick.cfg")]
     per, depth, nj = (8, 30, 16) if quick else (40, 40, 16)
-    groups = [("Trace_Relayer.tla", "Trace_Relayer_C02.cfg", rc.jobs(seed, per, depth, nj, 3, 2, "c02"))]
+    groups = [("Trace_Relayer.tla", "Trace_Relayer_C02.cfg", rc.jobs(seed, per, depth, nj, 3, 2, "c02")),
+              ("Trace_Relayer.tla", "Trace_Relayer_C02_static.cfg", [("c02table", ["voted", "-cases", os.path.join(work, "cases.ndjson"), "-inst", 1, "-seed", seed + 9])])]
     return verif.run_stateful_check("C02", tier, seed, work, mc_list=mc, groups=groups, key_fn=rc.key,
                                     level="model_checking", assumptions=ASSUME, rule=RULE)
